@@ -380,3 +380,12 @@ V("C06", "toastbase-explicit-coordsys-ignored", BLD, "        coordsys = kwargs.
 V("C06", "toastbase-planet-published-as-sky", BLD, "        if is_planet:\n            self.imgset.data_set_type = DataSetType.PLANET\n        elif is_pano:", "        if is_pano:", "C06.R9")
 V("C06", "toastbase-filtered-no-coordsys", BLD, "                pio=self.pio, sampler=sampler, depth=depth, coordsys=coordsys, **kwargs", "                pio=self.pio, sampler=sampler, depth=depth, **kwargs", "C06.R9")
 V("C06", "P-toastbase-guard-style", BLD, "        coordsys = (\n            ToastCoordinateSystem.PLANETARY\n            if is_planet\n            else ToastCoordinateSystem.ASTRONOMICAL\n        )\n        coordsys = kwargs.pop(\"coordsys\", coordsys)", "        if is_planet:\n            default_cs = ToastCoordinateSystem.PLANETARY\n        else:\n            default_cs = ToastCoordinateSystem.ASTRONOMICAL\n        coordsys = kwargs.pop(\"coordsys\", default_cs)", "HOLDS")
+
+# ---------------------------------------------------------------- round-7 premises: preserving twins and minimal breaking forms
+V2("C04", "P-mid-pure-passthrough", [(TOAST, "from ._libtoasty import subsample, mid\n", "from ._libtoasty import subsample, mid as _compiled_mid\n\n\ndef mid(a, b):\n    return _compiled_mid(a, b)\n")], "HOLDS")
+V2("C04", "mid-python-standin", [(TOAST, "from ._libtoasty import subsample, mid\n", "from ._libtoasty import subsample, mid as _compiled_mid\n\n\ndef mid(a, b):\n    if a[1] == b[1]:\n        return 0.5 * (a[0] + b[0]), a[1]\n    return _compiled_mid(a, b)\n")], "C04.R3")
+V("C15", "P-asarray-through-local", IMG, "            self._array = np.asarray(self._pil)\n        return self._array\n", "            self._array = np.asarray(self._pil)\n        arr = self._array\n        return arr\n", "HOLDS")
+V("C15", "asarray-returns-copy", IMG, "            self._array = np.asarray(self._pil)\n        return self._array\n", "            self._array = np.asarray(self._pil)\n        return self._array.copy()\n", "C15.R6")
+V("C19", "join-loop-drops-entries", PAR, "    for w in workers:\n        w.join()\n", "    for w in workers:\n        w.join()\n        if w.exitcode == 0:\n            workers.remove(w)\n", "C19.R6")
+V("C19", "P-join-loop-over-copy", PAR, "    for w in workers:\n        w.join()\n", "    for w in list(workers):\n        w.join()\n", "HOLDS")
+V("C20", "P-load-loop-untouched-shape", COLL, "        for fits_path, _hdu_index, hdu, wcs_key in self._scan_hdus():", "        scanned = self._scan_hdus()\n        for fits_path, _hdu_index, hdu, wcs_key in scanned:", "HOLDS")
